@@ -19,7 +19,7 @@ LENGTHS = [1, 5, 12, 20, 28, 31, 32, 32, 32, 33, 33, 34, 40]
 
 def cases(ctx):
     rng = ctx.rng('c15')
-    for _ in range(ctx.budget(3000, 200000)):
+    for _ in range(ctx.budget(9000, 300000)):
         modes = rng.choice([['pop'], ['pop'], ['roll'], ['paint'], ['roll', 'pop'], ['paint', 'pop'],
                             ['pop', 'pop'], ['roll', 'paint']])
         lengths = LENGTHS if rng.random() < 0.7 else [3, 10, 20, 30, 31, 32]
